@@ -211,6 +211,7 @@ func (w *World) exec(g *G, fr *Frame, instr ssa.Instruction) {
 		}
 		k := w.get(fr, i.Key)
 		v := w.get(fr, i.Value)
+		w.touch(m.m.id, true)
 		if idx := w.mapFind(m.m, k); idx >= 0 {
 			m.m.vals[idx] = v
 		} else {
@@ -224,6 +225,7 @@ func (w *World) exec(g *G, fr *Frame, instr ssa.Instruction) {
 		case MapV:
 			it := &RangeIter{m: r.m}
 			if r.m != nil {
+				w.touch(r.m.id, false)
 				it.keys = append(it.keys, r.m.keys...)
 				it.vals = append(it.vals, r.m.vals...)
 			}
@@ -336,6 +338,7 @@ func (w *World) storeTo(g *G, addr Value, val Value) bool {
 		}
 		w.store(p.c, val)
 	case BytePtr:
+		w.touch(p.a.id, true)
 		p.a.set(p.i, val.(*Term))
 	default:
 		w.abort("internal: store through %T", addr)
@@ -576,6 +579,7 @@ func (w *World) mapFind(m *MapObj, k Value) int {
 	if m == nil {
 		return -1
 	}
+	w.touch(m.id, false)
 	for idx, mk := range m.keys {
 		eq := w.valueEq(mk, k)
 		if w.branch(eq) {
